@@ -129,11 +129,15 @@ class Inliner:
         pre = []
         sub = {}
         for p, v in env.items():
-            if p in assigned:
+            if p in assigned or not isinstance(v, (ast.Name, ast.Constant)):
+                # evaluate the argument once, before the callee's statements (call-by-value)
                 pre.append(ast.Assign(targets=[ast.Name(id=tag + p, ctx=ast.Store())], value=A.clone(v), lineno=getattr(fn, "lineno", 0), col_offset=0))
             else:
                 sub[p] = v
         ren = {n: tag + n for n in assigned}
+        for p in env:
+            if p not in sub:
+                ren[p] = tag + p
 
         class T(ast.NodeTransformer):
             def visit_Name(self, n):
